@@ -172,6 +172,17 @@ def add_noise(r, spec, enum_level=True, variant_level=True, skip=()):
     return spec
 
 
+def maybe_macro_wrap(r, spec, prob=0.12):
+    """Declare the enum through a macro_rules! template, its name arriving as a macro argument (items generated by
+    declarative macros are ordinary derive input, but their tokens carry other spans / hygiene)."""
+    if r.random() < prob and not spec.macro_params:
+        spec.macro_params = [("enum ", spec.name, "ident")]
+        if spec.generics:
+            spec.macro_params.append(("= ", spec.name, "ident"))
+        spec.tags.append("macro-declared")
+    return spec
+
+
 def all_masks(n):
     return list(itertools.product([False, True], repeat=n))
 
